@@ -652,6 +652,12 @@ func (w *world) log(by string, n *node) {
 		if n > 16384 {
 			simrt.Probe("message_over_pool_limit")
 		}
+		if ch("log.msg.huge", 12) == 11 {
+			// rarely: a line beyond a megabyte (whatever caps, chunks or samples
+			// by size sits far above the buffer pool's limit)
+			simrt.Probe("message_over_a_mebibyte")
+			n = []int{1<<20 + 100, 3 << 20}[ch("log.msg.huge.n", 2)]
+		}
 		r.msgTail = strings.Repeat("M", n)
 	case 1:
 		simrt.Probe("message_needing_quotes")
